@@ -2,13 +2,16 @@ import TbbVerif.Core.Proto
 import TbbVerif.Model.C20
 import TbbVerif.Model.C20Gen
 import TbbVerif.Model.C20SleepV
+import TbbVerif.Model.C20PoolV
 
 open TbbVerif
 
 def drivers : List (String × Proto.Driver) := [
   ("c20", C20.driver),
   ("c20sl", C20.Sleep.driver C20.genSleepCfg),
-  ("c20slv", C20.Sleep.vdriver C20.genSleepCfg)
+  ("c20slv", C20.Sleep.vdriver C20.genSleepCfg),
+  ("c20pool", C20.Pool.vdriver C20.genPoolSkel),
+  ("c20ring", C20.Ring.driver C20.genPoolSkel.popClears)
 ]
 
 def main (args : List String) : IO UInt32 := Proto.mainOf drivers args
